@@ -74,6 +74,48 @@ def root(x):
 FIXTURE_EFFECTS = {'nonlocal', 'mutate-captured', 'store-captured', 'global-rng', 'clock', 'attr-store', 'store-param', 'memo-decorator'}
 
 
+def _exports_closures(fn):
+  """Does calling `fn` hand out a function that can still see fn's locals (returned / yielded / stored nested def or lambda)?"""
+  own = []
+
+  def collect(stmts):
+    for st in stmts:
+      if isinstance(st, (ast.FunctionDef, ast.AsyncFunctionDef, ast.ClassDef)):
+        continue
+      own.append(st)
+      for fld in ('body', 'orelse', 'finalbody'):
+        sub = getattr(st, fld, None)
+        if isinstance(sub, list) and sub and isinstance(sub[0], ast.stmt):
+          collect(sub)
+      for h in getattr(st, 'handlers', []) or []:
+        collect(h.body)
+  collect(fn.body)
+  tainted = {d.name for d in ast.walk(fn) if isinstance(d, (ast.FunctionDef, ast.AsyncFunctionDef)) and d is not fn}
+
+  def mentions(e):
+    for n in ast.walk(e):
+      if isinstance(n, ast.Lambda):
+        return True
+      if isinstance(n, ast.Name) and n.id in tainted:
+        return True
+    return False
+  for _ in range(3):
+    for st in own:
+      if isinstance(st, (ast.Assign, ast.AnnAssign)) and st.value is not None and mentions(st.value):
+        for t in (st.targets if isinstance(st, ast.Assign) else [st.target]):
+          for n in ast.walk(t):
+            if isinstance(n, ast.Name):
+              tainted.add(n.id)
+  for st in own:
+    if isinstance(st, ast.Return) and st.value is not None and mentions(st.value):
+      return True
+    if isinstance(st, ast.Expr) and isinstance(st.value, (ast.Yield, ast.YieldFrom)) and st.value.value is not None and mentions(st.value.value):
+      return True
+    if isinstance(st, ast.Assign) and any(isinstance(t, (ast.Attribute, ast.Subscript)) for t in st.targets) and mentions(st.value):
+      return True
+  return False
+
+
 class Effects:
   def __init__(self, tree, modname):
     self.tree = tree
@@ -136,9 +178,11 @@ class Effects:
       params.add(fn.args.vararg.arg)
     if fn.args.kwarg:
       params.add(fn.args.kwarg.arg)
+    # locals of enclosing functions that outlive the enclosing call: only functions that hand a nested function /
+    # lambda out (factories) keep their locals alive; a helper nested in a plain function shares locals that die with the call
     enclosing_locals = set()
     for c in chain:
-      if c[1] is not None:
+      if c[1] is not None and (c[2] is None or _exports_closures(c[2])):
         enclosing_locals |= c[1]
     # decorators
     for d in fn.decorator_list:
